@@ -118,7 +118,9 @@ func ApplyUnpackFilter(ff api.FilesetUnpackFilter, fmeta *fs.Metadata) error {
 		fmeta.Perms &= ^fs.Perms_Sticky
 	}
 	if follow, reject := ff.Setid(); reject {
-		if fmeta.Perms&(fs.Perms_Setuid|fs.Perms_Setgid) != 0 {
+		// (A symlink has no mode of its own: bits an archive header claims for one are never
+		//  materialized -- nor can a cache shelf show them -- so they are nothing to reject.)
+		if fmeta.Type != fs.Type_Symlink && fmeta.Perms&(fs.Perms_Setuid|fs.Perms_Setgid) != 0 {
 			return errcat.ErrorDetailed(
 				rio.ErrFilterRejection,
 				"filter rejection: setid bits",
